@@ -56,7 +56,36 @@ func vvBuild(nodes []string, ranks map[string]int, vals []uint64) (cluster.Versi
 	if err := w.Err(); err != nil {
 		return cluster.VersionVector{}, err
 	}
-	return cluster.ReadVersionVector(messages.NewReader(w.Bytes()))
+	v, err := cluster.ReadVersionVector(messages.NewReader(w.Bytes()))
+	if err == nil {
+		return v, nil
+	}
+	// The reader refused a vector the API can produce (e.g. one holding the maximum counter). Build it
+	// the other legitimate way - maximum-1 through the reader, then Increment - so that the refusal shows
+	// up as a failed round trip in the tables instead of stopping the check.
+	top := len(vals) - 1
+	lower := map[string]int{}
+	var bump []string
+	for nd, r := range ranks {
+		lower[nd] = r
+		if r == top && top >= 1 {
+			lower[nd] = top - 1
+			bump = append(bump, nd)
+		}
+	}
+	if len(bump) == 0 {
+		return cluster.VersionVector{}, err
+	}
+	v, err2 := vvBuild(nodes, lower, vals)
+	if err2 != nil {
+		return cluster.VersionVector{}, err
+	}
+	for _, nd := range bump {
+		if v, err2 = v.Increment(nd); err2 != nil {
+			return cluster.VersionVector{}, err
+		}
+	}
+	return v, nil
 }
 
 // vvKey renders a real vector as ranks over the node universe ("-1" absent, "-2" a counter
